@@ -1,6 +1,7 @@
 package main
 
 import (
+	"go/token"
 	"fmt"
 	"go/types"
 	"regexp"
@@ -53,6 +54,7 @@ type State struct {
 	notes      []string
 	dead       bool
 	freshRefs  []string
+	private    []*Pointer // heap cells of this activation tree no callee can reach (see privateAlloc): survive callee frames
 	trace      []string
 	curBlock   *ssa.BasicBlock
 	specHeap   *specInst // non-nil while evaluating a spec function body: heap arrays are formal parameters
@@ -109,6 +111,7 @@ func (st *State) clone() *State {
 	}
 	n.notes = append([]string(nil), st.notes...)
 	n.freshRefs = append([]string(nil), st.freshRefs...)
+	n.private = append([]*Pointer(nil), st.private...)
 	n.trace = append([]string(nil), st.trace...)
 	return n
 }
@@ -326,6 +329,7 @@ func keyInPkgs(key string, pkgs []string) bool {
 
 // havocExcept: everything may have changed except the state of types declared in the given packages.
 func (x *Exec) havocExcept(st *State, pkgs []string) {
+	defer x.savePrivate(st)()
 	keep := map[string]string{}
 	for k, name := range st.heap {
 		if keyInPkgs(k, pkgs) {
@@ -343,6 +347,7 @@ func (x *Exec) havocExcept(st *State, pkgs []string) {
 }
 
 func (x *Exec) havocAllHeap(st *State) {
+	defer x.savePrivate(st)()
 	for k := range st.heap {
 		st.written[k] = true
 	}
@@ -677,4 +682,84 @@ func refLeaf(l Leaf) bool {
 		return true
 	}
 	return false
+}
+
+// savePrivate reads the private cells (captured variables whose address provably never leaves the function and
+// its own deferred / directly called closures) and returns the action that writes the values back after a havoc:
+// no callee can have a pointer to them, so no frame - however wide - covers them.
+func (x *Exec) savePrivate(st *State) func() {
+	if len(st.private) == 0 {
+		return func() {}
+	}
+	vals := make([]*Value, len(st.private))
+	for i, p := range st.private {
+		vals[i] = x.load(st, p, p.Root)
+	}
+	return func() {
+		for i, p := range st.private {
+			x.store(st, p, vals[i])
+		}
+	}
+}
+
+var privateMemo = map[*ssa.Alloc]bool{}
+
+// privateAlloc: every use of the heap-allocated variable is a load, a store INTO it, or a capture by a closure that
+// is only deferred or called directly in the allocating function and uses the captured variable in the same ways.
+func privateAlloc(a *ssa.Alloc) bool {
+	if r, ok := privateMemo[a]; ok {
+		return r
+	}
+	r := privateUses(a, 0)
+	privateMemo[a] = r
+	return r
+}
+
+func privateUses(v ssa.Value, depth int) bool {
+	if depth > 3 || v.Referrers() == nil {
+		return false
+	}
+	for _, ref := range *v.Referrers() {
+		switch u := ref.(type) {
+		case *ssa.DebugRef:
+		case *ssa.UnOp:
+			if u.Op != token.MUL {
+				return false
+			}
+		case *ssa.Store:
+			if u.Val == v {
+				return false
+			}
+		case *ssa.MakeClosure:
+			if u.Referrers() == nil {
+				return false
+			}
+			for _, cr := range *u.Referrers() {
+				switch c := cr.(type) {
+				case *ssa.DebugRef:
+				case *ssa.Defer:
+					if c.Call.Value != ssa.Value(u) {
+						return false
+					}
+				case *ssa.Call:
+					if c.Call.Value != ssa.Value(u) {
+						return false
+					}
+				default:
+					return false
+				}
+			}
+			fn := u.Fn.(*ssa.Function)
+			for i, b := range u.Bindings {
+				if b == v {
+					if i >= len(fn.FreeVars) || !privateUses(fn.FreeVars[i], depth+1) {
+						return false
+					}
+				}
+			}
+		default:
+			return false
+		}
+	}
+	return true
 }
